@@ -116,9 +116,13 @@ register(Contract(
               # C19 hands over a duplicate-free list
               "forall(lambda a, b: implies(a < b, files_to_scan[a] != files_to_scan[b]), 0, len(files_to_scan))",
               "is_empty(g_succ) and is_empty(g_fix) and is_empty(g_announced) and is_empty(g_fixflag)", "not g_stdin_ok",
-              "g_nfail == 0 and g_nfix == 0", "implies(use_standard_in, args.primary_subparser != 'fix')", "not g_called"],
+              "g_nfail == 0 and g_nfix == 0", "implies(use_standard_in, args.primary_subparser != 'fix')", "not g_called",
+              "is_empty(g_files) and is_empty(g_written)"],
+    assume_entry=[("forall(lambda j: user_file(files_to_scan[j]), 0, len(files_to_scan))",
+                   "the paths produced by file discovery are files of the user: none of them is a temporary file that this run creates later "
+                   "(tempfile names are fresh)")],
     ghost={"g_succ": "List[bool]", "g_fix": "List[bool]", "g_fixflag": "Dict[str, bool]", "g_announced": "Set[str]", "g_stdin_ok": "bool",
-           "g_nfail": "int", "g_nfix": "int", "g_called": "bool"},
+           "g_nfail": "int", "g_nfix": "int", "g_called": "bool", "g_files": "Set[str]", "g_written": "Set[str]"},
     types={"args": "Namespace"},
     calls={"fsh.process_files_to_scan": ("pymarkdown/file_scan_helper.py::FileScanHelper.process_files_to_scan", ["g_called = True"])},
     ensures=[
@@ -129,6 +133,9 @@ register(Contract(
         # C19: a discovery error means nothing is scanned
         "implies(did_error_scanning_files, not g_called)",
         "is_category(result)",
+        # C10: scan and scan-stdin are read-only; no run leaves a temporary file behind
+        "implies(args.primary_subparser != 'fix', forall_val(lambda x: x not in g_written))",
+        "forall_val(lambda x: x not in g_files)",
     ],
     raises=[Raises("SystemExit", code=SYSERR), Raises("Exception")],
     modifies=["*", "number_of_scan_failures"],
